@@ -28,6 +28,8 @@ ClassOK(k, c, first) ==
   CASE k = "any"   -> c # "/"
     [] k = "dig"   -> c \in Digits
     [] k = "digb"  -> c \in Digits                                   \* the same set written with a counted repetition: \d{1,}
+    [] k = "dign"  -> c \in Digits                                   \* (?P<d>\d)\d*  - the same language with a NAMED group inside; outside the
+    [] k = "digc"  -> c \in Digits                                   \* (\d+)         - documented grammar: registration may refuse these
     [] k = "num"   -> IF first THEN c \in (Digits \ {"0"}) ELSE c \in Digits
     [] k = "word"  -> c \in WordCh
     [] k = "all"   -> TRUE
